@@ -7,6 +7,7 @@ use std::fmt::Write as _;
 
 pub mod auth;
 pub mod datalog;
+pub mod keycodec;
 pub mod expr;
 
 /// SplitMix64: every random choice of a run derives from one state.
@@ -312,11 +313,15 @@ impl G {
             G::N(i) => write!(s, "{}%N", i).unwrap(),
             G::Nat(i) => write!(s, "{}%nat", i).unwrap(),
             G::Hex(b) => {
-                if b.is_empty() {
-                    s.push_str("[]")
-                } else {
-                    write!(s, "(hx \"{}\")", hex::encode(b)).unwrap()
+                // a list of N literals: Coq parses it ~7x faster than a string literal
+                s.push('[');
+                for (i, x) in b.iter().enumerate() {
+                    if i > 0 {
+                        s.push(';');
+                    }
+                    write!(s, "{}%N", x).unwrap();
                 }
+                s.push(']');
             }
             G::B(b) => s.push_str(if *b { "true" } else { "false" }),
             G::None_ => s.push_str("None"),
